@@ -121,10 +121,10 @@ def ensure_facts(repo=REPO, verbose=True):
             json.dump({"key": key, "repo": repo, "export_s": round(time.time() - t0, 2), "at": time.time()}, fh)
         shutil.rmtree(final, ignore_errors=True)
         os.rename(tmp, final)
-        # keep the cache small: only the 6 most recent fact sets
+        # keep the cache small: only the 24 most recent fact sets (about 40 MB each)
         allf = sorted((os.path.getmtime(os.path.join(CACHE, "facts", d)), d)
                       for d in os.listdir(os.path.join(CACHE, "facts")) if not d.endswith(".tmp"))
-        for _, d in allf[:-10]:
+        for _, d in allf[:-24]:
             shutil.rmtree(os.path.join(CACHE, "facts", d), ignore_errors=True)
         if verbose:
             print("[facts] exported %s in %.1fs" % (key, time.time() - t0), file=sys.stderr)
